@@ -177,7 +177,15 @@ func runC03(c *Ctx) {
 			fmt.Sprintf("%d go sites, %d call sites in total", len(gs), len(c.Callers(producer))))
 		// framing
 		nGood := 0
-		funcInstrs(producer, func(in ssa.Instruction) {
+		frameInstrs := func(f func(ssa.Instruction)) {
+			funcInstrs(producer, f)
+			for _, lr := range c.lineReads(producer) {
+				if lr.Site != lr.Inner {
+					funcInstrs(lr.Inner.Parent(), f)
+				}
+			}
+		}
+		frameInstrs(func(in ssa.Instruction) {
 			cc := callOf(in)
 			if cc == nil {
 				return
